@@ -5,9 +5,11 @@ import (
 	"fmt"
 	"math/rand"
 	"os"
+	"runtime"
 	"sort"
 	"strings"
 	"sync"
+	"sync/atomic"
 
 	"vharness/internal/core"
 
@@ -86,28 +88,35 @@ func cmdVrace(args []string) {
 		return res
 	}
 	rng := rand.New(rand.NewSource(*seed))
-	var seq map[string]result
-	if !*expectInitErr {
-		// sequential reference AFTER nothing else: the analyzer caches its configuration
-		// process-wide, so the reference run shares the cache with the parallel rounds
-		// (that is the real driver's situation as well).
-		seq = map[string]result{}
-		for _, p := range pkgs {
-			seq[p.ID] = runPass(p)
-			cnt.Add("sequential_passes", 1)
-			cnt.Add("sequential_diagnostics", len(seq[p.ID].diags))
-		}
+	// The parallel rounds come FIRST, on a cold process: the analyzer caches its configuration
+	// process-wide, and the very first concurrent entry is the only moment at which passes
+	// race on building it. The sequential reference is taken afterwards.
+	type roundRes struct {
+		r       int
+		results []result
 	}
+	var all []roundRes
 	for r := 0; r < *rounds; r++ {
 		order := rng.Perm(len(pkgs))
 		results := make([]result, len(pkgs))
 		var wg sync.WaitGroup
 		start := make(chan struct{})
+		var arrived int32
+		n := int32(len(order))
 		for _, idx := range order {
 			wg.Add(1)
 			go func(idx int) {
 				defer wg.Done()
 				<-start
+				// spinning rendezvous: all passes enter the analyzer within a few instructions of
+				// each other (a channel release alone lets the first one finish its
+				// initialisation before the others are even scheduled)
+				atomic.AddInt32(&arrived, 1)
+				for spins := 0; atomic.LoadInt32(&arrived) < n; spins++ {
+					if n > int32(runtime.GOMAXPROCS(0)) || spins > 1<<22 {
+						runtime.Gosched()
+					}
+				}
 				results[idx] = runPass(pkgs[idx])
 			}(idx)
 		}
@@ -124,18 +133,11 @@ func cmdVrace(args []string) {
 			if got.err != "" {
 				nerr++
 			}
-			if *expectInitErr {
-				if len(got.diags) > 0 {
-					out.Emit(core.V("C19", "analysed-despite-init-error", fmt.Sprintf("pass over %s reported diagnostics although initialisation failed", p.ID), map[string]interface{}{"pkg": p.ID, "aflags": *aflags}))
-				}
-				continue
-			}
-			want := seq[p.ID]
-			if strings.Join(got.diags, "\n") != strings.Join(want.diags, "\n") || got.err != want.err {
-				out.Emit(core.V("C04", "analyzer-parallel-differs", fmt.Sprintf("parallel analyzer pass over %s differs from the sequential pass (round %d)", p.ID, r),
-					map[string]interface{}{"pkg": p.ID, "round": r, "aflags": *aflags, "sequential": want.diags, "parallel": got.diags, "err_seq": want.err, "err_par": got.err}))
+			if *expectInitErr && len(got.diags) > 0 {
+				out.Emit(core.V("C19", "analysed-despite-init-error", fmt.Sprintf("pass over %s reported diagnostics although initialisation failed", p.ID), map[string]interface{}{"pkg": p.ID, "aflags": *aflags}))
 			}
 		}
+		all = append(all, roundRes{r, results})
 		if *expectInitErr {
 			cnt.Add("init_error_rounds", 1)
 			if r == 0 && nerr != 1 {
@@ -147,8 +149,28 @@ func cmdVrace(args []string) {
 		}
 		cnt.Add("rounds", 1)
 	}
-	if len(pkgs) > 0 && seq != nil {
-		out.Emit(core.Sample{Kind: "sample", Sample: map[string]interface{}{"aflags": *aflags, "packages": len(pkgs), "rounds": *rounds, "first_pkg": pkgs[0].ID, "first_pkg_diagnostics": len(seq[pkgs[0].ID].diags)}})
+	if !*expectInitErr {
+		seq := map[string]result{}
+		for _, p := range pkgs {
+			seq[p.ID] = runPass(p)
+			cnt.Add("sequential_passes", 1)
+			cnt.Add("sequential_diagnostics", len(seq[p.ID].diags))
+		}
+		for _, rr := range all {
+			for i, p := range pkgs {
+				got, want := rr.results[i], seq[p.ID]
+				if got.pan != "" {
+					continue
+				}
+				if strings.Join(got.diags, "\n") != strings.Join(want.diags, "\n") || got.err != want.err {
+					out.Emit(core.V("C04", "analyzer-parallel-differs", fmt.Sprintf("parallel analyzer pass over %s differs from the sequential pass (round %d)", p.ID, rr.r),
+						map[string]interface{}{"pkg": p.ID, "round": rr.r, "aflags": *aflags, "sequential": want.diags, "parallel": got.diags, "err_seq": want.err, "err_par": got.err}))
+				}
+			}
+		}
+		if len(pkgs) > 0 {
+			out.Emit(core.Sample{Kind: "sample", Sample: map[string]interface{}{"aflags": *aflags, "packages": len(pkgs), "rounds": *rounds, "first_pkg": pkgs[0].ID, "first_pkg_diagnostics": len(seq[pkgs[0].ID].diags), "cold_start": true}})
+		}
 	}
 	out.Emit(cnt.Stat())
 	out.Emit(map[string]interface{}{"kind": "done"})
